@@ -385,13 +385,8 @@ class Run:
             'seen2': list(self.listener2.seen) if self.listener2 else [],
             'contexts': [(c.get('message', ''), type(c.get('exception')).__name__) for c in self.contexts],
         }
-        try:
-            proc.add_cleanup(lambda: None)
-            self.obs['closed'] = False
-        except plumpy.ClosedError:
-            self.obs['closed'] = True
-        except Exception:  # noqa: BLE001
-            self.obs['closed'] = None
+        from ._common import is_closed
+        self.obs['closed'] = is_closed(proc)
 
 
 def site_class(site: str, occurrence: int, during: Optional[str]) -> str:
@@ -442,8 +437,16 @@ def judge(scenario: str, plan: Tuple[str, int, str], run: Run, twin: Run) -> Lis
             violate('listener:changes-the-process', {'faulted': repr(obs)[:400], 'twin': repr(twin.obs)[:400]}, kind=kind)
         if any(r[2] is not None for r in run.call_results):
             violate('listener:exception-reaches-caller', repr(run.call_results), kind=kind)
-        if obs['seen'] != twin.obs['seen'] or obs['seen2'] != twin.obs['seen2']:
-            violate('listener:other-listener-misses-notifications', {'first': obs['seen'], 'second': obs['seen2'], 'twin': twin.obs['seen']}, kind=kind)
+        # the failing listener changes nothing about the process, and (C02) every listener still gets its one terminal
+        # notification; whether the others also get the intermediate notification during which one of them failed is not
+        # laid down
+        terminal = ('on_process_finished', 'on_process_excepted', 'on_process_killed')
+        for key in ('seen', 'seen2'):
+            got = [n for n in obs[key] if n in terminal]
+            want = [n for n in twin.obs[key] if n in terminal]
+            if got != want:
+                violate('listener:other-listener-misses-notifications', {'listener': key, 'got': got, 'want': want}, kind=kind)
+                break
         return out
     if kind == 'pause-play-hook':
         # reported to whoever requested the pause / play ...
